@@ -46,7 +46,47 @@ var c03Getters = map[string]string{
 var c03ContactFields = []string{"name", "language", "status", "timezone", "urns", "groups", "fields", "ticket", "lastSeenOn"}
 
 // c03AllowedMutatorCaller decides whether fn may call mutator (R1). The classes are semantic, not positional.
+// c03AllowedMutatorCaller: fn may call the mutator itself, or is an unexported helper all of whose callers may (a block
+// extracted from an owner acts on the owner's behalf).
 func c03AllowedMutatorCaller(p *core.Program, fn *ssa.Function, mutator string, applyImpls map[*ssa.Function]bool) (bool, string) {
+	return c03AllowedDepth(p, fn, mutator, applyImpls, 0)
+}
+
+func c03AllowedDepth(p *core.Program, fn *ssa.Function, mutator string, applyImpls map[*ssa.Function]bool, depth int) (bool, string) {
+	if ok, why := c03AllowedDirect(p, fn, mutator, applyImpls); ok {
+		return ok, why
+	}
+	root := fn
+	for root.Parent() != nil {
+		root = root.Parent()
+	}
+	if depth >= 3 || root.Object() == nil || root.Object().Exported() {
+		return false, ""
+	}
+	sites := p.CallsTo(root)
+	n := 0
+	owner := ""
+	for _, cs := range sites {
+		if p.IsTestFile(cs.Pos()) || core.FuncPkgPath(cs.Caller) != core.FuncPkgPath(root) {
+			if !p.IsTestFile(cs.Pos()) {
+				return false, ""
+			}
+			continue
+		}
+		ok, why := c03AllowedDepth(p, cs.Caller, mutator, applyImpls, depth+1)
+		if !ok {
+			return false, ""
+		}
+		n++
+		owner = core.FuncName(cs.Caller) + " (" + why + ")"
+	}
+	if n == 0 {
+		return false, ""
+	}
+	return true, "unexported helper called only from " + owner
+}
+
+func c03AllowedDirect(p *core.Program, fn *ssa.Function, mutator string, applyImpls map[*ssa.Function]bool) (bool, string) {
 	root := fn
 	for root.Parent() != nil {
 		root = root.Parent()
@@ -696,7 +736,32 @@ func c03R5(p *core.Program, r *core.Report) {
 		if ok {
 			// every return returns the mod.Apply result
 			for _, ret := range core.Returns(apply) {
-				if len(ret.Results) != 1 || !core.BackSlice(ret.Results[0], nil)[modCall] {
+				if len(ret.Results) != 1 {
+					ok = false
+					continue
+				}
+				if core.BackSlice(ret.Results[0], nil)[modCall] {
+					continue
+				}
+				// a constant that equals the flag on this path (`if !modified { return false }`)
+				same := false
+				if c, isC := ret.Results[0].(*ssa.Const); isC && c.Value != nil {
+					want := c.Value.String() == "true"
+					for _, ce := range core.ControllingConds(ret.Block()) {
+						cond, taken := ce.Cond, ce.Taken
+						for {
+							if un, isNot := cond.(*ssa.UnOp); isNot && un.Op == token.NOT {
+								cond, taken = un.X, !taken
+								continue
+							}
+							break
+						}
+						if cond == ssa.Value(modCall) && taken == want {
+							same = true
+						}
+					}
+				}
+				if !same {
 					ok = false
 					detail = "modifiers.Apply does not return the modifier's own modified flag"
 				}
